@@ -321,7 +321,7 @@ func c09Seeds() [][]fixscan.Field {
 	return s
 }
 
-var c09Values = []string{"", "-", "0", "-1", "A", "99999999999999999999", "1000000", "Y", "20240101-00:00:00.000", "9223372036854775807", "-9223372036854775808", "9223372036854775000"}
+var c09Values = []string{"", "-", "0", "-1", "A", "99999999999999999999", "1000000", "Y", "20240101-00:00:00.000", "20240101-00:00:00.1234567890", "20240101-00:00:00.123456789012", "9223372036854775807", "-9223372036854775808", "9223372036854775000"}
 
 // fieldMutants: all single mutations of a field list. Each returns a field list (9/10 excluded; framing recomputed
 // by Build) or raw bytes.
@@ -511,6 +511,18 @@ func c09ForEach(tier string, shard, shards int, from int64, f func(idx int64, si
 		}
 	}
 	rec(0)
+	// (a1) every value type reads texts of every length up to 40 drawn from the timestamp alphabet's extremes:
+	// timestamps with 0..20 fraction digits (only 0, 3, 6 and 9 are precisions of the grammar), long runs of digits
+	for k := 0; k <= 20; k++ {
+		ts := "20240101-00:00:00"
+		if k > 0 {
+			ts += "." + strings.Repeat("1234567890", 3)[:k]
+		}
+		for _, in := range [][]byte{[]byte(ts), []byte(strings.Repeat("9", 17+k)), []byte(ts + "Z")} {
+			in := in
+			emit("read-string", in, "", func(d *c09Dicts) string { sinkRead(in); return "" })
+		}
+	}
 	// (b) seeds x mutations
 	seeds := c09Seeds()
 	for si, seed := range seeds {
